@@ -56,12 +56,18 @@ type Segment struct {
 func (s *Segment) WriteTo(w io.Writer, _ chan struct{}) (int64, error) {
 	bw := bufio.NewWriter(w)
 
-	n, err := s.data.WriteTo(w)
+	// hash the data while it is written: s.footer.crc covers only the data
+	// for a segment built in memory, but the whole file (including the old
+	// footer) for a loaded one, so it cannot seed the new footer's CRC
+	cw := newCountHashWriter(w)
+	n, err := s.data.WriteTo(cw)
 	if err != nil {
 		return n, fmt.Errorf("error persisting segment: %w", err)
 	}
 
-	err = persistFooter(s.footer, bw)
+	footer := *s.footer
+	footer.crc = cw.Sum32()
+	err = persistFooter(&footer, bw)
 	if err != nil {
 		return n, fmt.Errorf("error persisting segment footer: %w", err)
 	}
